@@ -13,7 +13,7 @@ import os, re, json, stat
 from concurrent.futures import ThreadPoolExecutor
 from . import common as C, repo as R
 
-FLAGS_AS_IS = "0000"     # fixed_P7 fixed_P8 fixed_mv_absent fixed_P45
+FLAGS_AS_IS = "00000"    # fixed_P7 fixed_P8 fixed_mv_absent fixed_P45 fixed_P47
 
 
 def flags_from_source():
@@ -31,7 +31,9 @@ def flags_from_source():
     mva = bool(m and re.search(r"!\s*source_path\.exists\(\)", m.group(1)))
     # the pre-check of the P45 fix: cmd_move looks up the destination's cache path before it changes any record
     p45 = bool(re.search(r"XvcCachePath::new\(dest_path, cd\)", mv)) and "is not in the cache" in mv
-    return "".join("1" if b else "0" for b in (p7, p8, mva, p45))
+    # the fix of P47: untrack skips a link whose cache file is gone
+    p47 = "its content is not in the cache" in un
+    return "".join("1" if b else "0" for b in (p7, p8, mva, p45, p47))
 MINE = ("copy", "move", "remove", "untrack")
 
 TRUSTED = [
@@ -528,7 +530,7 @@ def run_property(chk, replay, focus, oracle, classify_corr, nontrivial, rule, n_
                         "edits_visible: user writes get distinct explicit modification times"]
     chk.proof()
     flags = flags_from_source()
-    chk.cov["model_switches"] = {"fixed_P7": flags[0] == "1", "fixed_P8": flags[1] == "1", "fixed_mv_absent": flags[2] == "1", "fixed_P45": flags[3] == "1",
+    chk.cov["model_switches"] = {"fixed_P7": flags[0] == "1", "fixed_P8": flags[1] == "1", "fixed_mv_absent": flags[2] == "1", "fixed_P45": flags[3] == "1", "fixed_P47": flags[4] == "1",
                                  "read_from": "file/src/untrack/mod.rs, file/src/mv/mod.rs of the working tree"}
     model = C.ensure_model("Repoext", ["Base", "Repo", "Glob"])
     xvc = C.ensure_xvc()
